@@ -741,6 +741,10 @@ pub fn run(args: &Args, prop: &str) -> SubResult {
             if prop == "C13" && thorough && wi >= 9 {
                 continue;
             }
+            // `--lite`: the second feature configuration re-runs a slice (first world, typed front-ends)
+            if args.rest.iter().any(|a| a == "--lite") && (wi > 0 || f.1) {
+                continue;
+            }
             cases.push((*w, f));
         }
     }
